@@ -172,7 +172,13 @@ def parse_rules(ctx, I, r5='C18.R5', freshness_only=False):
             continue
         checksum_bookkeeping(ctx, I, s)
         # R4 fullText
-        for (s2, ft) in getattr_value(I, s.clone(), Obj('GP'), 'fullText', fr):
+        saved_merge = getattr(I, 'merge_ifs', True)
+        I.merge_ifs = False         # the conditional expressions of fullText decide the group guards: one path per combination
+        try:
+            ft_results = getattr_value(I, s.clone(), Obj('GP'), 'fullText', fr)
+        finally:
+            I.merge_ifs = saved_merge
+        for (s2, ft) in ft_results:
             ctx.instance('C18.R4', repr(ft)[:80])
             if not isinstance(ft, (Cat, SStr, Str)):
                 ctx.report('C18.R4', 'GcodeParser.fullText', 'value %r' % (ft,), 'fullText is not a string concatenation')
